@@ -105,6 +105,67 @@ func (b *Backend) NewServer(opts ...server.OpenFGAServiceV1Option) *server.Serve
 	return s
 }
 
+// GateDS wraps a datastore so that a driver can hold one FindLatestAuthorizationModel call of a
+// chosen store "in flight": the call queries the inner datastore, then waits at the gate until
+// Release.  Calls for other stores pass through.  Used to reproduce overlaps of model-less
+// requests deterministically.
+type GateDS struct {
+	storage.OpenFGADatastore
+	mu      sync.Mutex
+	armed   string
+	has     bool
+	calls   map[string]int
+	entered chan struct{}
+	release chan struct{}
+}
+
+func NewGate(inner storage.OpenFGADatastore) *GateDS {
+	return &GateDS{OpenFGADatastore: inner, calls: map[string]int{}}
+}
+
+// Arm makes the next FindLatestAuthorizationModel(store) wait at the gate.
+func (g *GateDS) Arm(store string) {
+	g.mu.Lock()
+	defer g.mu.Unlock()
+	g.armed, g.has = store, true
+	g.calls = map[string]int{}
+	g.entered, g.release = make(chan struct{}), make(chan struct{})
+}
+
+// Entered is closed when the armed call has got its answer from the datastore and waits.
+func (g *GateDS) Entered() <-chan struct{} { g.mu.Lock(); defer g.mu.Unlock(); return g.entered }
+
+// Calls is the number of FindLatestAuthorizationModel calls for the store since Arm.
+func (g *GateDS) Calls(store string) int { g.mu.Lock(); defer g.mu.Unlock(); return g.calls[store] }
+
+// Release lets the held call return and disarms the gate.
+func (g *GateDS) Release() {
+	g.mu.Lock()
+	defer g.mu.Unlock()
+	if g.has {
+		close(g.release)
+		g.has = false
+		g.armed = ""
+	}
+}
+
+func (g *GateDS) FindLatestAuthorizationModel(ctx context.Context, store string) (*openfgav1.AuthorizationModel, error) {
+	m, err := g.OpenFGADatastore.FindLatestAuthorizationModel(ctx, store)
+	g.mu.Lock()
+	block := false
+	if g.has {
+		g.calls[store]++
+		block = g.armed == store && g.calls[store] == 1
+	}
+	entered, release := g.entered, g.release
+	g.mu.Unlock()
+	if block {
+		close(entered)
+		<-release
+	}
+	return m, err
+}
+
 // Disown tells the backend that somebody else (a server built by hand) closes the datastore.
 func (b *Backend) Disown() { b.owned = false }
 
